@@ -239,7 +239,15 @@ def _run(case, ctx, d, which):
         r0 = call(lambda: Merger(subdirs[::-1], out).merge())
         if r0.ok:
             call(r0.value.close)
-    merger = Merger(subdirs, out)
+    if case['seed'][2] % 5 == 2:
+        # the documented probe_info argument (labels not in alphabetical order, extra fields): it describes the probes in the
+        # order given and changes nothing else
+        labels_ = ['right', 'left', 'middle', 'z9', 'a0', 'm5', 'b1', 'y8', 'c2', 'x7', 'd3', 'w6'] + ['p%03d' % (500 - i) for i in range(200)]
+        pinfo = [{'label': labels_[i], 'model': '3B%d' % (i % 2)} for i in range(len(subdirs))]
+        ctx.cell('probe_info_given')
+        merger = Merger(subdirs, out, pinfo) if case['seed'][2] % 2 else Merger(subdirs, out, probe_info=pinfo)
+    else:
+        merger = Merger(subdirs, out)
     if k >= 2 and case['seed'][2] % 7 == 3:
         # history: a first merge() fails at a later probe (an input file is missing), the input is repaired and
         # merge() is called again on the SAME Merger object; the retry is the one judged
